@@ -238,7 +238,7 @@ def generate(seed, run, tier):
              "tag_filter": _gen_pred(rw, TG) if rs.random() < 0.2 else None,
              "empty_db": not lines and rs.random() < 0.5}
     # trace, generated against the ideal + family bookkeeping so that most ops are meaningful
-    nsteps = rs.choice([4, 10, 20, 40])
+    nsteps = rs.choice([4, 10, 20, 40] if tier == "quick" else [4, 10, 20, 40, 80])
     w_ins = rs.choice([2, 4, 8])
     w_der = rs.choice([1, 2, 4])
     w_drop = rs.choice([0, 1])
